@@ -632,6 +632,7 @@ def c26(tier, seed, replay):
 def run(prop, tier, seed, replay):
     import cychecks  # noqa: F401  (registers the Cypher-level checks)
     import conchecks  # noqa: F401  (schedule-driven checks)
+    import pagechecks  # noqa: F401  (page ownership)
     if prop not in REG:
         print("property %s has no check (see MANIFEST.not_applicable)" % prop)
         return 2
